@@ -63,6 +63,9 @@ def gen_program(rnd, prof):
             t['flag'] = 0
         if rnd.random() < prof['p_split'] and len(deps) >= 2:
             t['split'] = True
+        if not t.get('phony') and rnd.random() < prof.get('p_linkout', 0.12):
+            # the output is a symbolic link to a data file the script leaves next to it (lib.so -> lib.so.1.2)
+            t['linkout'] = True
         if any(x.startswith('sub/') for x in deps) and rnd.random() < prof.get('p_alias', 0.35):
             # asks for its dependencies in sub/ through a symbolic link to that directory (lnk -> sub): same targets, other spelling
             t['alias'] = True
